@@ -163,6 +163,12 @@ impl Mac {
         let mut otaa = otaa::Otaa::new(credentials);
         let dev_nonce = otaa.prepare_buffer::<RNG, N>(rng, buf);
         self.state = State::Otaa(otaa);
+        // A join leaves the previous session behind: receive parameters the network of that
+        // session commanded (RXParamSetupReq) mean nothing to the network being joined, which
+        // answers in, and then uses, the regional default windows until it negotiates others.
+        self.configuration.rx1_dr_offset = 0;
+        self.configuration.rx2_data_rate = None;
+        self.configuration.rx2_frequency = None;
         let (mut tx_config, tx_channel) =
             self.region.create_tx_config(rng, self.configuration.data_rate, &Frame::Join);
         tx_config.adjust_power(self.board_eirp.max_power, self.board_eirp.antenna_gain);
